@@ -6,7 +6,7 @@ RULE = ("E1: ModZip - the documented classification of a file list (Classify), t
         "(prefix + valid files) passes CheckZip with nothing invalid, extracts, and extracts to exactly the valid files "
         "(CreateRoundTrip), and that valid files are sound (ValidAreSound: clean, relative, well-formed, not vendored, not in a nested "
         "module, go.mod only at the root in lower case, pairwise collision free). E2: every list of up to 2 (quick: 2 over the core "
-        "path set, thorough: 3 over the full set) files over a curated path set x modes x sizes x go versions is given to the real "
+        "path set, thorough: 3 over the core set - 65 file variants, 275 k lists) files over a curated path set x modes x sizes x go versions is given to the real "
         "zip.CheckFiles / zip.Create; creation must succeed exactly when the specification reports nothing invalid; the produced "
         "bytes are written out, passed through the real zip.CheckZip and zip.Unzip, and the extracted tree is compared name by name "
         "and byte for byte with the source files reported valid, and the archive's content with the files the specification says belong in it; "
@@ -18,7 +18,7 @@ RULE = ("E1: ModZip - the documented classification of a file list (Classify), t
 
 def run(ctx):
     q = ctx.quick()
-    return zipcheck.run(ctx, "c05:", ["ModZipGen_files_full2", "ModZipGen_sizes"] if q else ["ModZipGen_files_full2", "ModZipGen_sizes", "ModZipGen_files_full3"], [],
+    return zipcheck.run(ctx, "c05:", ["ModZipGen_files_full2", "ModZipGen_sizes"] if q else ["ModZipGen_files_full2", "ModZipGen_sizes", "ModZipGen_files_small3"], [],
                         3000 if q else 60000, RULE,
                         assumptions=["module example.com/m at v1.0.0; sizes are classes (small = a few bytes, big = 16 MiB + 1 byte); archive/zip and the file system are trusted"])
 
